@@ -104,15 +104,29 @@ func TestVerifC17Close(t *testing.T) {
 			for _, c := range c17Calls {
 				sets = append(sets, []string{c})
 			}
-			nrand := l.Pick(6, 110)
-			for i := 0; i < nrand; i++ {
-				var s []string
-				for _, c := range c17Calls {
-					if rng.IntN(2) == 0 {
-						s = append(s, c)
+			if l.Quick() {
+				for i := 0; i < 6; i++ {
+					var s []string
+					for _, c := range c17Calls {
+						if rng.IntN(2) == 0 {
+							s = append(s, c)
+						}
+					}
+					sets = append(sets, s)
+				}
+			} else {
+				// every subset of the blocked calls, three times (different hook seeds, idle periods, client kinds)
+				for rep := 0; rep < 3; rep++ {
+					for m := 1; m < 1<<len(c17Calls)-1; m++ {
+						var s []string
+						for i, c := range c17Calls {
+							if m&(1<<i) != 0 {
+								s = append(s, c)
+							}
+						}
+						sets = append(sets, s)
 					}
 				}
-				sets = append(sets, s)
 			}
 			for si, s := range sets {
 				idle := []int{1000, 5000, 30000}[rng.IntN(3)]
